@@ -36,7 +36,7 @@ def pick(rnd, i):
 
 CHECK = ComponentCheck("C21", pick, tiers={"quick": (96, 300), "thorough": (3200, 1200)}, drain=6)
 shards, run_shard = CHECK.shards, CHECK.run_shard
-RULE = ("histories = hostile random read_req/read_resp/write sequences over transparent x read_on_resp (all four modes every run) x granularity {None, "
+RULE = ("[in 30% of the histories every provided exclusive method has a second, competing caller transaction: a request is issued by the main caller, the rival or both; condition exclusive_method_serves_at_most_one_caller_per_cycle] histories = hostile random read_req/read_resp/write sequences over transparent x read_on_resp (all four modes every run) x granularity {None, "
         "divisors of the width} x 1-3 read ports x 1-3 write ports x depth {2,4,5,8} x memory_type {Memory (3/4 of the budget), MultiRead, XOR, XORILVT, "
         "OneHotILVT}; half of the cycles aim a write at the address of a pending response; two write ports never address one row; a response is "
         "compared with an ideal memory at request time (or response time with read_on_resp), same-cycle writes counted exactly when transparent; "
